@@ -148,6 +148,19 @@ fn run_burst(case: &Case) -> Verdict {
                     opened[d] = false;
                 }
             }
+            // a change notification that carries no change (editors send it, for instance, when only the
+            // version moved on), and a save: notifications the server has little or nothing to do for
+            "empty-change" => {
+                if opened[d] {
+                    version += 1;
+                    c.notify("textDocument/didChange", json!({"textDocument": {"uri": uris[d], "version": version}, "contentChanges": []}));
+                }
+            }
+            "save" => {
+                if opened[d] {
+                    c.notify("textDocument/didSave", json!({"textDocument": {"uri": uris[d]}}));
+                }
+            }
             "pause" => std::thread::sleep(Duration::from_micros(op[1].as_u64().unwrap_or(100).min(20_000))),
             // go on the moment the server starts publishing (its diagnostics task is then in the middle
             // of its per-file loop); a timeout just goes on
@@ -400,6 +413,7 @@ fn gen_burst(rng: &mut Rng) -> Case {
                     ops.push(json!(["req", rng.below(3), REQUESTS[rng.below(REQUESTS.len())]]));
                 }
             }
+            8 => ops.push(json!([if rng.chance(2, 3) { "empty-change" } else { "save" }, rng.below(3)])),
             _ => ops.push(json!(["pause", rng.below(3000)])),
         }
     }
@@ -424,6 +438,15 @@ impl Property for C08 {
                     for r in REQUESTS {
                         for d in 0..2 {
                             let ops = json!([["open", 0], ["change", d], ["req", 0, r], ["change", 0], ["req", d, r]]);
+                            if !emit(json!({"kind": "burst", "classes": classes, "ops": ops})) {
+                                return;
+                            }
+                        }
+                    }
+                    // notifications the server does little for, between edits that it does a lot for
+                    for quiet in ["empty-change", "save"] {
+                        for d in 0..2 {
+                            let ops = json!([["open", 0], ["open", 1], [quiet, d], ["change", 0], ["req", 0, "hover"], ["change", 1], [quiet, 0], ["change", 0], ["change", 0], ["req", 1, "documentSymbol"]]);
                             if !emit(json!({"kind": "burst", "classes": classes, "ops": ops})) {
                                 return;
                             }
